@@ -198,6 +198,40 @@ impl Part for DiscoveryPart {
     }
 }
 
+/// Small clusters observed for hundreds of probe periods: counters that wrap (probe number, token) and
+/// slow effects must not produce a false suspicion either.
+pub struct LongRunPart;
+impl Part for LongRunPart {
+    type Case = C02Case;
+    fn name(&self) -> &'static str {
+        "long-run-safety"
+    }
+    fn strategy(&self, _tier: Tier) -> BoxedStrategy<C02Case> {
+        let mut p = ClusterProfile::default();
+        p.n = (2, 4);
+        p.max_tx = (1, 10);
+        p.join_formation = 1;
+        p.inject_formation = 1;
+        cluster_spec(&p).prop_map(|spec| C02Case { spec, judge_discovery: false }).boxed()
+    }
+    fn cases(&self, tier: Tier) -> u64 {
+        tier.pick(300, 10_000)
+    }
+    fn exec(&self, c: &C02Case, out: &mut CaseOut) -> Result<(), Fail> {
+        let spec = &c.spec;
+        let period = spec.period_us();
+        let (mut sim, t_done) = form(spec, safety)?;
+        sim.run_until(t_done + 600 * period, safety)?;
+        out.sub_evaluations += sim.steps;
+        out.class("long_run_600_periods");
+        out.nontrivial((spec.n, spec.cfg.max_tx, spec.cfg.num_indirect, spec.codec, spec.cfg.periodic_gossip.is_some(), spec.cfg.periodic_announce.is_some()));
+        Ok(())
+    }
+    fn max_shrink_iters(&self) -> u32 {
+        200
+    }
+}
+
 pub struct TinyPart;
 impl Part for TinyPart {
     type Case = C02Case;
@@ -235,9 +269,10 @@ impl Part for TinyPart {
 pub fn run(ctx: &Ctx, report: &mut Report) -> EvidenceMeta {
     ctx.run_part(&DiscoveryPart, report);
     ctx.run_part(&TinyPart, report);
+    ctx.run_part(&LongRunPart, report);
     EvidenceMeta {
         level: "exploration",
-        rule: "deterministic discrete-event simulation of whole clusters, every input generated by proptest: n in 2..=12 (24 thorough), join instants, seed member of each joiner (any earlier member), per-message latency uniform in [1us, L] with L < probe_rtt/4, every instance's RNG seed, fan-out 1..3, max_transmissions 1..10, periodic gossip / announce on or off, probe_rtt/probe_period 0.2..0.8, packet size from 'feeds the whole cluster' to 1400 (part 2: from 'every header just fits' upward, safety clause only), fixed- and variable-length identities; timers fire exactly on time, ties in Timer's documented order. Oracle at every event: no call returns an error, no MemberDown/Idle/Defunct/Rejoin, no record other than Alive in the acting node's iter_membership_state(); at T_last_join + (6n+20) probe periods every instance lists exactly every other identity as Alive. Non-convergence with periodic announce off, all backlogs drained, nothing in flight and symmetric knowledge is the listed known finding C02:discovery-stall; any other non-convergence is a violation. Non-trivial: n >= 3, a joiner used a non-first seed and every member completed probe rounds; distinct = (n, config class, join graph, message kinds, codec)."
+        rule: "deterministic discrete-event simulation of whole clusters, every input generated by proptest: n in 2..=12 (24 thorough), join instants, seed member of each joiner (any earlier member), per-message latency uniform in [1us, L] with L < probe_rtt/4, every instance's RNG seed, fan-out 1..3, max_transmissions 1..10, periodic gossip / announce on or off, probe_rtt/probe_period 0.2..0.8, packet size from 'feeds the whole cluster' to 1400 (part 2: from 'every header just fits' upward, safety clause only; part 3: clusters of 2..4 observed for 600 probe periods, safety clause only, so that wrapping counters are crossed), fixed- and variable-length identities; timers fire exactly on time, ties in Timer's documented order. Oracle at every event: no call returns an error, no MemberDown/Idle/Defunct/Rejoin, no record other than Alive in the acting node's iter_membership_state(); at T_last_join + (6n+20) probe periods every instance lists exactly every other identity as Alive. Non-convergence with periodic announce off, all backlogs drained, nothing in flight and symmetric knowledge is the listed known finding C02:discovery-stall; any other non-convergence is a violation. Non-trivial: n >= 3, a joiner used a non-first seed and every member completed probe rounds; distinct = (n, config class, join graph, message kinds, codec)."
             .into(),
         assumptions: vec![
             "transport delivers every datagram within probe_rtt/4, timers fire exactly on time (the statement's premises)".into(),
@@ -250,6 +285,7 @@ pub fn replay(part_name: &str, case: &Value) -> Option<Result<(), Fail>> {
     match part_name {
         "discovery-and-safety" => Some(replay_with(&DiscoveryPart, case)),
         "tiny-packets-safety" => Some(replay_with(&TinyPart, case)),
+        "long-run-safety" => Some(replay_with(&LongRunPart, case)),
         _ => None,
     }
 }
